@@ -301,6 +301,8 @@ def c05_run(sc, results):
                     out.append((f"mode {m} main file: records not in ascending query id order", None, f"{m}/0"))
     peaks_count = int(sc.extra_args.get("-p", 3))
     nlab = {mid: len(pos) for mid, _, pos in sc.queries}
+    for m, r in results.items():
+        out.extend(seed_selection(sc, r["real"], m))
     if "separate" in results and not results["separate"]["real"]["error"]:
         r = results["separate"]
         first = {int(x["QryContigID"]): x for x in r["rows"].get(0, [])}
@@ -349,3 +351,41 @@ def c07_wellformed(text):
         if len(l.split("\t")) != 15:
             return f"record with {len(l.split(chr(9)))} columns"
     return None
+
+
+def seed_selection(sc, real, mode=""):
+    """C05 / C16, between the primary and the secondary stage: for every molecule (whole query or second-pass fragment)
+    the seeds that were refined and aligned are exactly the peaksCount highest-scoring primary peaks over all
+    references and both strands, in descending score order (ties: order of arrival, which is reference by reference,
+    forward strand first).  Uses every primary correlation the worker dispatched (PrimaryCatcher) and every refined
+    seed (SeedCatcher); independent of the model."""
+    if real.get("error") or "primary" not in real:
+        return []
+    count = int(sc.extra_args.get("-p", 3))
+    margin = int(sc.extra_args.get("-ma", 16000))
+    out = []
+    prim = {}
+    for x in real["primary"]:
+        prim.setdefault((x["qid"], x["shift"], x["n"]), []).append(x)
+    seeds = {}
+    for s in real["seeds"]:
+        if "cstart" not in s:
+            return []
+        seeds.setdefault((s["qid"], s["shift"], s["n"]), {})[s["idx"]] = s
+    for key, items in prim.items():
+        if len(items) % 2:
+            continue            # a run that aborted in the middle of a query
+        allp = []
+        for i, it in enumerate(items):
+            rev = bool(i % 2)   # dispatched forward, then reverse, per reference
+            for pos, score in it["peaks"]:
+                allp.append((it["ref"], rev, pos, score))
+        want = sorted(allp, key=lambda p: -p[3])[:count]            # stable
+        got = [(s["ref"], bool(s["rev"]), s["cstart"] + margin) for i, s in sorted(seeds.get(key, {}).items())]
+        if got != [(a, b, c) for a, b, c, d in want]:
+            out.append((f"query {key[0]} (labels {key[1]}+{key[2]}): seeds refined {got} are not the {count} highest-scoring primary "
+                        f"peaks in descending order {[(a, b, c) for a, b, c, d in want]}", None, f"{mode}/seeds"))
+    for key in seeds:
+        if key not in prim:
+            out.append((f"query {key[0]}: seeds were refined although no primary correlation was dispatched", None, f"{mode}/seeds"))
+    return out
